@@ -230,6 +230,28 @@ def synthetic_codes(w):
     c = variants.rebuild(base, small)
     if c is not None:
         out.append(({'kind': 'synthcode', 'label': 'redundant-prefixes', 'n': 0}, c))
+    out.extend(twin_trees())
+    return out
+
+
+def twin_trees():
+    """one code object whose constants hold two code objects that CPython considers equal (same bytecode, constants,
+    names, first line) but whose line tables differ; from 3.8 the compiler shares such objects, so the tree is put
+    together with code.replace (on 3.7 the compiler itself produces it: special-equal-code-different-lines)"""
+    out = []
+    if not hasattr(types.CodeType, 'replace'):
+        return out
+    pairs = [("def f(x):\n    y = x + 1\n    return y\n", "def f(x):\n    y = x + 1\n\n    return y\n"),
+             ("def f(x):\n    return lambda: (x,\n        1)\n", "def f(x):\n    return lambda: (x,\n\n        1)\n")]
+    for n, (a, b) in enumerate(pairs):
+        fa = [k for k in compile(a, '<twin>', 'exec').co_consts if isinstance(k, types.CodeType)][0]
+        fb = [k for k in compile(b, '<twin>', 'exec').co_consts if isinstance(k, types.CodeType)][0]
+        if fa != fb:
+            continue
+        base = compile("x = 1\n", '<twin>', 'exec')
+        inner = base.replace(co_consts=base.co_consts + (fb,), co_name='inner')
+        holder = base.replace(co_consts=base.co_consts + (fa, inner, fb))
+        out.append(({'kind': 'synthcode', 'label': 'twin-tree-%d' % n, 'n': 0}, holder))
     return out
 
 
@@ -464,6 +486,9 @@ def c14_one(w, inp, c):
 def run_C14(w):
     for inp, c in programs(w):
         w.guard(c14_one, w, inp, c)
+    if w.shard == 0:
+        for inp, c in twin_trees():
+            w.guard(c14_one, w, inp, c)
 
 
 RUN = {'C01': run_C01, 'C02': run_C02, 'C13': run_C13, 'C09': run_C09, 'C14': run_C14}
